@@ -11,7 +11,7 @@ const vfIdx = "vecfc.Index"
 
 func init() {
 	register("C05", "other", "T7 Pairing (cache write = table write), T6 WhoMayWrite, T2 (cache purge on reset/drop), T21 InjectiveEncoding (shared with C04)",
-		"Decides only the clause 'the answer does not depend on which queries were made before or on the indexing history': the forkless-cause pair cache is read and written under the same ordered key (a, b) and caches exactly the computed result; Reset purges all three caches; the two vector caches are purged whenever unflushed index data is dropped and the pair cache cannot be hit by a recycled temporary ID (C04.tmpid); the vector caches are written only by the set/get accessors, each write paired with the table write/read of the same value, so a cached vector always equals the stored one; the engine writes its loaded branch table (per-branch last sequence numbers, fork assignment) back on every path before the vectors are flushed, so re-reading the table after a drop or restart cannot change how later events are filed; the search for forks not seen by parents compares every pair of a creator's branches and either of its two iterations ends before exhaustion only behind the true edge of the overlap test (so the verdict does not depend on the order in which the branches were created). Equality of the index answer with the graph definition of forkless cause (a value-level fact over all DAGs) is not decided.",
+		"Decides only the clause 'the answer does not depend on which queries were made before or on the indexing history': the forkless-cause pair cache is read and written under the same ordered key (a, b) and caches exactly the computed result; Reset purges all three caches; the two vector caches are purged whenever unflushed index data is dropped and the pair cache cannot be hit by a recycled temporary ID (C04.tmpid); the vector caches are written only by the set/get accessors, each write paired with the table write/read of the same value, so a cached vector always equals the stored one; the engine writes its loaded branch table (per-branch last sequence numbers, fork assignment) back on every path before the vectors are flushed, so re-reading the table after a drop or restart cannot change how later events are filed; the search for forks not seen by parents compares every pair of a creator's branches and either of its two iterations ends before exhaustion only behind the true edge of the overlap test (so the verdict does not depend on the order in which the branches were created); and, of the definition's first conjunct, the operand provenance of the fork test: in the inlined view of ForklessCause a test GetHighestBefore(a).Get(GetEventBranchID(b)).IsForkDetected() exists and no branch lookup is made for an event other than b (C05.bfork). Statements of the accessors may sit in helpers that receive table and cache through a grouping struct or as parameters, and the cached value may be produced by a bound callback (struct projection and helper/callback results are read back symbolically). Equality of the index answer with the graph definition of forkless cause (a value-level fact over all DAGs) is not decided.",
 		[]string{"simplewlru.Cache is a faithful cache (C29)", "the table store is an ordered map (C23)"},
 		runC05)
 }
@@ -137,4 +137,6 @@ func runC05(c *core.Ctx) {
 	c.Clause("C05.who", func() { c05Who(c) })
 
 	c.Clause("C05.branches", func() { c05Branches(c) })
+
+	c.Clause("C05.bfork", func() { c05BFork(c) })
 }
